@@ -151,6 +151,13 @@ pub fn check_forward(rec: &Rec, garbage: &[u8], ctx: &mut Ctx) -> Result<(), Fai
                 Kind::Igmp => Some(12),
                 _ => None,
             };
+            // option areas: 40 bytes is what a 4 bit IHL / data offset leaves
+            if matches!(k, Kind::Ipv4 | Kind::Tcp) && e.len() == 60 {
+                let announced = if matches!(k, Kind::Ipv4) { Ipv4Options::MAX_LEN as usize } else { TcpOptions::MAX_LEN };
+                if announced != 40 {
+                    return cx.fail(ctx, "options MAX_LEN", "announced-maximum-attained", format!("a header with 40 bytes of options exists, the option type announces a maximum of {}", announced));
+                }
+            }
             if let Some(fm) = format_max {
                 if e.len() == fm {
                     ctx.class("fwd:longest-encoding-of-its-type");
